@@ -7,7 +7,7 @@
      nokey             := Ok []                                      (b"")
    where root key ids and security descriptors (octet strings) are numbered by an injective code : bytes -> Z with left
    inverse dec (the abstract model compares them with Z.eqb). *)
-From V Require Import Prelude.Base Prelude.PyInt Prelude.Loops gen.Kernels gen.K_cache.
+From V Require Import Prelude.Base Prelude.PyInt Prelude.Loops gen.Kernels gen.Consts gen.K_cache gen.K_gkdi.
 From V Require Import Prelude.PyAst Prelude.PyWorld Flow.World_cache Proofs.Flow_cache_public.
 From V Require Import Model.Types Model.Crypto Model.Chain Model.KeyId Model.Gkdi Model.Kek Model.SecDesc Model.Blob Model.Interval Model.Client Model.Cache.
 From V Require Import Proofs.GkdiLib Spec.GkdiSpec Proofs.C10.
@@ -519,20 +519,37 @@ Qed.
 Hypothesis dc_expl : dc_explicit_ok adc_of.
 
 (* C10_transparent, concretely: in every valid history, a completed unprotect call decrypts with an envelope (cached, or the
-   DC's reply) that is for the blob's L0 and whose L2 key at the blob's position - what get_kek derives the KEK from - is the
-   MS-GKDI chain key of (root key id, target SD, L0, L1, L2) under the true root key *)
+   DC's reply) that is for the blob's L0 and whose L2 key at the blob's position is the MS-GKDI chain key of (root key id,
+   target SD, L0, L1, L2) under the true root key - and that IS what get_kek derives the KEK from, PROVIDED the envelope's own
+   KDF parameters name the hash h (envelope_hash rk = Ok h): the abstraction abs_env forgets the KDF parameters, the abstract kdf
+   has one hash, and without this hypothesis the statement would speak of a key the call does not derive
+   (C10RefineEx.rx_wrong_hash: the rx instance with h := SHA256 against an envelope naming SHA512). *)
 Theorem concrete_transparent evs data b sd server u p a rk :
   Forall cev_ok evs -> Forall cev_true evs ->
   asks data b sd ->
   let kid := b_key_identifier b in
   0 <= kid_l1 kid <= 31 -> 0 <= kid_l2 kid <= 31 ->
   unprotect_envelope c dns_of getkey_of (crun evs) data server u p a = Ok rk -> gke_is_public_key rk = false ->
+  envelope_hash rk = Ok h ->      (* the hash the envelope's KDF parameters name is the h of the abstract kdf: abs_env forgets them *)
   fst (unprotect_online c dns_of getkey_of (crun evs) data server u p a) = decrypt_blob c b rk /\
   gke_l0 rk = kid_l0 kid /\
   compute_l2_key c h (kid_l1 kid) (kid_l2 kid) rk
-  = key_at (akdf c h) (al1seed c) atruth (code (kid_rkid kid)) (code sd) (kid_l0 kid) (kid_l1 kid) (kid_l2 kid).
+  = key_at (akdf c h) (al1seed c) atruth (code (kid_rkid kid)) (code sd) (kid_l0 kid) (kid_l1 kid) (kid_l2 kid) /\
+  get_kek c rk kid
+  = (let* l2_key := key_at (akdf c h) (al1seed c) atruth (code (kid_rkid kid)) (code sd) (kid_l0 kid) (kid_l1 kid) (kid_l2 kid) in
+     if kid_is_public_key kid
+     then compute_kek_from_public_key c h l2_key (gke_secret_alg rk) (gke_secret_params rk) (kid_key_info kid) (k_ceil_priv_get (gke_priv_len rk))
+     else Ok (kdf c h l2_key c_KDS_SERVICE_LABEL (kid_key_info kid) k_kek_len_nonce_get)).
 Proof.
-  intros HF HT HA kid R1 R2 HE Hpub. subst kid.
+  intros HF HT HA kid R1 R2 HE Hpub Hhash. subst kid.
+  enough (CORE : fst (unprotect_online c dns_of getkey_of (crun evs) data server u p a) = decrypt_blob c b rk /\
+            gke_l0 rk = kid_l0 (b_key_identifier b) /\
+            compute_l2_key c h (kid_l1 (b_key_identifier b)) (kid_l2 (b_key_identifier b)) rk
+            = key_at (akdf c h) (al1seed c) atruth (code (kid_rkid (b_key_identifier b))) (code sd) (kid_l0 (b_key_identifier b))
+                (kid_l1 (b_key_identifier b)) (kid_l2 (b_key_identifier b))).
+  { destruct CORE as (C1 & C2 & C3). split; [exact C1|]. split; [exact C2|]. split; [exact C3|].
+    unfold get_kek. rewrite Hpub. unfold k_getkek_l0_mismatch. rewrite C2, Z.eqb_refl. cbn [negb].
+    unfold envelope_hash in Hhash. unfold envelope_hash. rewrite Hhash. cbn [bind]. rewrite C3. reflexivity. }
   destruct (crun_refines _ HF) as (A & _ & HG).
   pose proof (Inv_reachable (akdf c h) (al1seed c) anokey adc_of atruth dc_conf _ (aevents_true _ HT)) as HI. rewrite A in HI.
   assert (HA' := HA). destruct HA' as (Hb & Hsd & H0).
